@@ -2418,11 +2418,11 @@ def c14_checks(repo: Repo, tier: str, res: CheckResult, seed: int) -> None:
 
 
 # ================================================================================================ C16: generic models (tier G)
-_G_IMPLICIT = {"T": "Any", "U": "Any", "V": "Any", "B": "Book", "C": "Union[str, bytes]", "N": "int"}
+_G_IMPLICIT = {"T": "Any", "U": "Any", "V": "Any", "B": "Book", "C": "Union[str, bytes]", "N": "int", "ItemT": "AuxItem"}
 _G_LOADER = {"int": "int_strict_coercion_loader", "str": "str_strict_coercion_loader", "bool": "bool_strict_coercion_loader",
              "float": "float_strict_coercion_loader", "Decimal": "decimal_strict_coercion_loader", "bytes": "bytes_base64_loader",
-             "Any": "<lambda>", "Book": "model_loader_Book"}
-_G_DUMPER = {"Decimal": "__str__", "bytes": "bytes_base64_dumper", "Book": "model_dumper_Book"}
+             "Any": "<lambda>", "Book": "model_loader_Book", "AuxItem": "model_loader_Item"}
+_G_DUMPER = {"Decimal": "__str__", "bytes": "bytes_base64_dumper", "Book": "model_dumper_Book", "AuxItem": "model_dumper_Item"}
 _G_TOP = {"List": "iter_", "Dict": "dict_", "Optional": "optional", "Union": "union", "list": "iter_", "dict": "dict_"}
 
 
@@ -2552,12 +2552,17 @@ def _g_leaves(texpr: str, table: Dict[str, str]) -> List[str]:
     texpr = _g_pipe(texpr.strip()).lstrip("*")
     mt = re.fullmatch(r"(\w+)\[(.*)\]", texpr)
     if mt:
+        if mt.group(1) == "Annotated":      # Annotated[X, meta]: the type is X
+            return _g_leaves(_g_split_args(mt.group(2))[0], table)
         out: List[str] = []
         for a in _g_split_args(mt.group(2)):
             out += _g_leaves(a, table)
         return out
     if texpr == "Book" and table is _G_LOADER:
         return ["model_loader_Book", "str_strict_coercion_loader"]
+    if texpr == "AuxItem" and table is _G_LOADER:
+        # the Item of the module the TypeVar was made in (title: str), not the homonym of the model's module (n: int)
+        return ["model_loader_Item", "str_strict_coercion_loader"]
     return [table[texpr]] if texpr in table else []
 
 
